@@ -27,6 +27,7 @@ func replay(prop string, r *sym.CaseResult, v *sym.ViolationInfo, path string) s
 	if concurrent && (!v.Aligned || len(v.Steps) == 0) {
 		return "model-only"
 	}
+	hooked := v.HookFile != ""
 	work, err := os.MkdirTemp(filepath.Join(*verifDir, ".work"), "replay-")
 	if err != nil {
 		os.MkdirAll(filepath.Join(*verifDir, ".work"), 0o755)
@@ -73,6 +74,9 @@ func replay(prop string, r *sym.CaseResult, v *sym.ViolationInfo, path string) s
 		}
 		sb.WriteString("}\n")
 	}
+	if hooked {
+		fmt.Fprintf(&sb, "\tvfHookFile, vfHookLine, vfHookOcc, vfHookAtomic = %q, %d, %d, %v\n", v.HookFile, v.HookLine, v.HookOcc, v.HookAtomic)
+	}
 	for _, s := range r.Shape {
 		kv := strings.SplitN(s, "=", 2)
 		fmt.Fprintf(&sb, "\tvfShapeMap[%q] = %s\n", kv[0], kv[1])
@@ -96,7 +100,7 @@ func replay(prop string, r *sym.CaseResult, v *sym.ViolationInfo, path string) s
 		os.WriteFile(strings.TrimSuffix(path, ".json")+".native.txt", []byte("stub overlay failed: "+err.Error()), 0o644)
 		return "diverged"
 	}
-	if concurrent {
+	if concurrent || hooked {
 		// every statement of the repository's sources and of the harnesses becomes a gate of the
 		// controlled scheduler
 		if err := gateOverlay(work, ov["Replace"]); err != nil {
@@ -353,8 +357,29 @@ func gateOverlay(work string, replace map[string]string) error {
 			}
 			return out
 		}
+		// sync/atomic calls get a gate of their own, placed after the evaluation of the arguments and
+		// immediately before the operation
+		atomicAlias := ""
+		for _, im := range af.Imports {
+			if strings.Trim(im.Path.Value, "\"") == "sync/atomic" {
+				atomicAlias = "atomic"
+				if im.Name != nil {
+					atomicAlias = im.Name.Name
+				}
+			}
+		}
 		ast.Inspect(af, func(n ast.Node) bool {
 			switch x := n.(type) {
+			case *ast.CallExpr:
+				if sel, ok := x.Fun.(*ast.SelectorExpr); ok && atomicAlias != "" {
+					if id, ok := sel.X.(*ast.Ident); ok && id.Name == atomicAlias && vfAtomicWrapped[sel.Sel.Name] {
+						ln := line(sel.Pos())
+						x.Fun = ast.NewIdent("vfAtomic" + sel.Sel.Name)
+						x.Args = append([]ast.Expr{
+							&ast.BasicLit{Kind: token.STRING, Value: fmt.Sprintf("%q", base)},
+							&ast.BasicLit{Kind: token.INT, Value: fmt.Sprint(ln)}}, x.Args...)
+					}
+				}
 			case *ast.BlockStmt:
 				x.List = instr(x.List)
 			case *ast.CaseClause:
@@ -372,6 +397,9 @@ func gateOverlay(work string, replace map[string]string) error {
 		}
 		// keep the build constraint of harness files
 		out := buf.Bytes()
+		if atomicAlias != "" {
+			out = append(out, []byte("\nvar _ = "+atomicAlias+".LoadUint32\n")...)
+		}
 		if strings.HasPrefix(base, "zz_verif_h") && !bytes.Contains(out[:min(len(out), 200)], []byte("//go:build")) {
 			out = append([]byte("//go:build verif\n\n"), out...)
 		}
@@ -382,4 +410,11 @@ func gateOverlay(work string, replace map[string]string) error {
 		replace[f.virtual] = dst
 	}
 	return nil
+}
+
+var vfAtomicWrapped = map[string]bool{
+	"LoadUint32": true, "LoadInt32": true, "LoadInt64": true, "LoadUint64": true,
+	"StoreUint32": true, "StoreInt32": true, "StoreInt64": true, "StoreUint64": true,
+	"AddUint32": true, "AddInt32": true, "AddInt64": true, "AddUint64": true,
+	"CompareAndSwapUint32": true, "CompareAndSwapInt32": true, "CompareAndSwapInt64": true, "CompareAndSwapUint64": true,
 }
